@@ -429,14 +429,14 @@ def unlink_permutation_points(points, root):
     return extra
 
 
-def recover_images(binary, image_dirs, keys_hex, nkeys, timeout_per=20, chunk=40):
+def recover_images(binary, image_dirs, keys_hex, nkeys, timeout_per=20, chunk=40, decode=False):
     """run the real recovery (vdrv dbread) on every image directory; returns {dir: result dict}"""
     results = {}
 
     def run_chunk(dirs, tmo):
         inp = common.scratch("dbread") + "/in-%s.json" % hashlib.sha1("|".join(dirs).encode()).hexdigest()[:12]
         with open(inp, "w") as f:
-            json.dump({"keys": keys_hex, "n": nkeys, "dirs": dirs}, f)
+            json.dump({"keys": keys_hex, "n": nkeys, "dirs": dirs, "decode": decode}, f)
         rc, out, err, to = common.run_proc([binary, "dbread", inp], tmo)
         got = {}
         for ln in (out or b"").decode("utf-8", "replace").splitlines():
